@@ -5,9 +5,9 @@
 //@ assumes: instantiation Value = [u8; 2] payload with a harness-side identity Format (the real formats are msgpack/rkyv/serde_json whose decoders are out of reach); the output sink is a fixed 8-byte array implementing std::io::Write (a Vec sink with symbolic-length write_all runs CBMC out of memory)
 //@ decides: C27: decode(encode(v, c), c) == v for every codec c (any u32) and payload; decoding with any other expected codec fails with the codec found in the data; parsing never panics on any input of <= 6 bytes and never reads past the prefix it reports
 //@ outside: rkyv / msgpack round trips of InterpreterData, envelopes and request/result maps (table-driven decoders); encode_multiformat's Vec buffer (same code path as write_multiformat with a Vec sink)
-//@ harness: name=c27_multiformat_roundtrip props=C27 cap=600 cost=30 sym="codec: any u32; expected codec: any u32; payload: any 2 bytes" bound="payload 2 bytes; varint <= 5 bytes; unwind 9"
-//@ harness: name=c27_multiformat_parse_total props=C27,C01 panicfree=1 cap=600 cost=20 sym="any input bytes, any length 0..=6" bound="<= 6 bytes; unwind 9"
-//@ harness: name=c27_multiformat_vacuity props=C27 expect=fail cap=600 cost=30 sym="as roundtrip" bound="same"
+//@ harness: name=c27_multiformat_roundtrip playback=1 props=C27 cap=600 cost=30 sym="codec: any u32; expected codec: any u32; payload: any 2 bytes" bound="payload 2 bytes; varint <= 5 bytes; unwind 9"
+//@ harness: name=c27_multiformat_parse_total playback=1 props=C27,C01 panicfree=1 cap=600 cost=20 sym="any input bytes, any length 0..=6" bound="<= 6 bytes; unwind 9"
+//@ harness: name=c27_multiformat_vacuity playback=1 props=C27 expect=fail cap=600 cost=30 sym="as roundtrip" bound="same"
 
 use super::*;
 
